@@ -32,6 +32,8 @@ def pairs(seed):
         (f"dir/{a}", f"dir/{b}"),  # inside a sub-directory
         (a, f"dir/{a}"),           # into a sub-directory
         (f"{a}.zo", f"{b}.zo"),    # names given with extension
+        (a, f"{b}.zo"),            # only the new name given with extension
+        (f"{a}.zo", b),            # only the old name given with extension
         ("todo.zo", "tasks.zo"),   # base name ends in characters of the extension
         ("zoo", "buzz"),
         (f"ABS:{a}.zo", f"ABS:{b}.zo"),  # absolute paths under the notes directory
